@@ -23,7 +23,14 @@
 (* FACTS describe the response independently of urllib3 (how it was built / damaged):              *)
 (*   framing "cl" | "chunked" | "close";  strict (zstd-like: incompleteness must be an error);     *)
 (*   decoding (decode_content=True and a Content-Encoding is present);                             *)
-(*   dmg "none" | "cut" | "badsize" | "negsize" | "emptysize" | "corrupt";                         *)
+(*   dmg "none" | "cut" | "badsize" | "negsize" | "emptysize" | "junksize" | "corrupt"             *)
+(*       | "sizebyte" (one byte of a chunk-size line replaced; `line` says what became of it);     *)
+(*   line  verdict of a strict RFC 9112 reading of the damaged chunk-size line (independent of     *)
+(*         urllib3 and http.client): "malformed" = not <1*HEXDIG>[;ext]CRLF; "lenient" = only       *)
+(*         SP/HTAB around the size or a bare LF terminator (what recipients may tolerate);         *)
+(*         "ext" = only the chunk-extension changed (recipients must ignore extensions they do     *)
+(*         not know, nobody validates them); "othersize" = well-formed but announcing another      *)
+(*         size (the framing contradicts itself further on); "none" otherwise;                     *)
 (*   zone  where a cut of a chunked body falls: "body" = at or before the first byte of the        *)
 (*         terminating zero-size chunk line, "tail" = inside that line or the trailer;             *)
 (*   indep verdict of an INDEPENDENT streaming decoder on the content bytes the framing carries:   *)
@@ -35,7 +42,7 @@ EXTENDS Integers, Sequences, FiniteSets
 SizedOps  == {"readn", "readinto", "read1n"}   \* return at most n
 ExactOps  == {"readn", "readinto"}             \* return exactly n unless the body ends
 GenOps    == {"stream", "chunked", "iter"}
-ChunkDamages == {"badsize", "negsize", "emptysize"}
+ChunkDamages == {"badsize", "negsize", "emptysize", "junksize"}
 \* the statement names ProtocolError, IncompleteRead, DecodeError; InvalidChunkLength / IncompleteRead are
 \* ProtocolError subclasses, and DESIGN 4/C13 accepts the whole urllib3 HTTPError family
 AcceptErrors == {"ProtocolError", "IncompleteRead", "InvalidChunkLength", "DecodeError", "ReadTimeoutError", "HTTPError"}
@@ -50,6 +57,7 @@ MustRaise(f) ==
     \/ f.dmg = "cut" /\ f.framing = "cl"                            \* short of Content-Length
     \/ f.dmg = "cut" /\ f.framing = "chunked" /\ f.zone = "body"    \* inside a chunk / before the terminating chunk
     \/ f.dmg \in ChunkDamages                                       \* malformed chunk-size line
+    \/ f.dmg = "sizebyte" /\ f.line = "malformed"                   \* ... found by single-byte corruption
     \/ f.decoding /\ f.indep = "error"                              \* undecodable compressed stream
     \/ f.decoding /\ f.strict /\ f.indep = "incomplete"             \* zstd: incomplete
 
@@ -58,7 +66,7 @@ Either(f) == ~MustRaise(f) /\ ~Intact(f)
 
 \* which C13 clause a missing error belongs to
 RaiseClause(f) == IF f.dmg = "cut" /\ f.framing # "close" THEN "CutNeverComplete"
-                  ELSE IF f.dmg \in ChunkDamages THEN "MalformedChunkRaises"
+                  ELSE IF f.dmg \in ChunkDamages \cup {"sizebyte"} THEN "MalformedChunkRaises"
                   ELSE "UndecodableRaises"
 
 (* Where does a cut after `at` body bytes fall?  layout = sequence of <<kind, start, end>> of    *)
